@@ -13,8 +13,52 @@ namespace tbbmalloc_whitebox { std::atomic<size_t> locGetProcessed{}; std::atomi
 #include <cerrno>
 #include <string>
 #include <vector>
+#include <sys/mman.h>
+
+// ---- bin.getFromBin: the REAL Backend::IndexedBins::getFromBin on a bin holding one free block at a chosen address offset and size ----
+static_assert(sizeof(rml::internal::FreeBlock) == 56, "header view of FreeBlock used by the harness (GuardedSize myL, leftL; prev, next, nextToFree; sizeTmp; myBin; slabAligned; blockInBin)");
+static bool try_getFromBin(size_t lead_in, size_t S, size_t size, bool report) {
+    using namespace rml::internal;
+    if (S < sizeof(FreeBlock) || S > (size_t(1) << 33) || size > (size_t(1) << 33)) return false;
+    size_t lead = lead_in & (slabSize - 1);
+    size_t mapSz = alignUp(S + 4 * slabSize, slabSize);
+    char* base = (char*)mmap(nullptr, mapSz + slabSize, PROT_READ | PROT_WRITE, MAP_PRIVATE | MAP_ANONYMOUS | MAP_NORESERVE, -1, 0);
+    if (base == MAP_FAILED) return false;
+    char* al = (char*)alignUp((uintptr_t)base, slabSize);
+    FreeBlock* fb = (FreeBlock*)(al + slabSize - lead);          // distance to the next slab boundary == lead (lead 0: aligned)
+    FreeBlock* right = (FreeBlock*)((uintptr_t)fb + S);
+    fb->initHeader(); fb->setMeFree(S); right->initHeader(); right->setLeftFree(S);
+    alignas(64) static char binsSpace[sizeof(Backend::IndexedBins)]; memset(binsSpace, 0, sizeof(binsSpace));
+    alignas(64) static char syncSpace[sizeof(BackendSync)]; memset(syncSpace, 0, sizeof(syncSpace));
+    Backend::IndexedBins* bins = (Backend::IndexedBins*)binsSpace; BackendSync* sync = (BackendSync*)syncSpace;
+    const int bin = 3;
+    bins->addBlock(bin, fb, S, /*addToTail=*/false);
+    FreeBlock* r = bins->getFromBin(bin, sync, size, /*needAlignedRes=*/true, /*alignedBin=*/false, /*wait=*/true, nullptr);
+    bool bad = false;
+    if (r) {
+        uintptr_t newB = alignUp((uintptr_t)r, slabSize), end = (uintptr_t)fb + S;
+        if (r != fb || newB + size > end) bad = true;
+        if (bad && report)
+            std::printf("REPRODUCED class=getFromBin-fit IndexedBins::getFromBin(size=%zu, needAlignedRes=true, alignedBin=false) accepted the free block [%p, +%zu): its slab-aligned start is %zu bytes in, so the %zu-byte slab block would end %zu bytes inside the live right neighbour\n",
+                        size, (void*)fb, S, (size_t)(newB - (uintptr_t)fb), size, (size_t)(newB + size - end));
+    }
+    munmap(base, mapSz + slabSize);
+    return bad;
+}
+static int replay_getFromBin(int argc, char** argv) {
+    size_t addr = argc > 2 ? std::strtoull(argv[2], nullptr, 0) : 0, S = argc > 3 ? std::strtoull(argv[3], nullptr, 0) : 0, size = argc > 4 ? std::strtoull(argv[4], nullptr, 0) : 0;
+    if (S && size && try_getFromBin((size_t)0 - addr, S, size, true)) return 0;           // the verifier's counterexample first
+    for (size_t num : {size_t(1), size_t(2)}) for (size_t lead : {size_t(8), size_t(56), size_t(64), size_t(4096), size_t(8192), size_t(16320), size_t(16376)})
+        for (size_t slack : {size_t(0), size_t(8), size_t(56), size_t(64), size_t(4096)}) {
+            size_t size = num * rml::internal::slabSize;
+            for (size_t S : {size + slack, size + lead - 8, size + lead, size + lead + 8, size + lead + 56 + slack})
+                if (try_getFromBin(lead, S, size, true)) return 0;
+        }
+    std::printf("NOT-REPRODUCED\n"); return 0;
+}
 int main(int argc, char** argv) {
     std::string job = argc > 1 ? argv[1] : "";
+    if (job == "bin.getFromBin") return replay_getFromBin(argc, argv);
     if (job == "remap.size_guard") {
         // a huge object that lives alone in its region (>= 1 MB) is grown by scalable_realloc -> reallocAligned -> Backend::remap; sizes near SIZE_MAX cannot be represented
         size_t want = argc > 2 ? std::strtoull(argv[2], nullptr, 0) : 0;
